@@ -351,10 +351,12 @@ def isa_for(pre_symbols):
 
 def world_for(case, lines):
     argv = ['bespokeasm', 'compile', '-c', 'isa.yaml', 'main.asm']
-    for n, v in case['cli_symbols'].items():
-        argv += ['-D', n if v is None else f'{n}={v}']
+    for i, (n, v) in enumerate(case['cli_symbols'].items()):
+        sp = case.get('cli_spacing', 0)
+        eq = ['=', ' = ', ' =', '= '][(sp + i) % 4] if sp else '='
+        argv += ['-D', (' ' if sp == 2 else '') + (n if v is None else f'{n}{eq}{v}')]
     return {'files': {f'{PDIR}/isa.yaml': gen.isa_text(isa_for(case['pre_symbols']), 'yaml'),
-                      f'{PDIR}/main.asm': '\n'.join(lines) + '\n'},
+                      f'{PDIR}/main.asm': ('\r\n' if case.get('crlf') else '\n').join(lines) + ('\r\n' if case.get('crlf') else '\n')},
             'argv': argv, 'cwd': PDIR, 'env': {'HOME': '/sim/home'}, 'step_budget': 3_000_000}
 
 
@@ -426,7 +428,37 @@ def run_history(case, stats=None, only_last=False):
     return sorted(set(viol)), obs, model
 
 
+def check_xproc(case):
+    """the complete history, assembled once by a real interpreter"""
+    from sim import xproc
+    model = CondModel(dict(case['pre_symbols']), dict(case['cli_symbols']))
+    lines = []
+    for op in case['ops']:
+        res = model.apply(copy.deepcopy(op))
+        if res is None or res[0] == 'probe':
+            continue
+        lines += res[1]
+    closing, mem = model.closing()
+    rr = xproc.run_real(world_for(case, lines + closing), PDIR, hashseed=case['xproc'].get('hashseed', 0),
+                        pyopt=case['xproc'].get('pyopt', 0))
+    expected = {a: b for a, b in mem.items() if b != 0}
+    v = []
+    obs = {'xproc': case['xproc'], 'exit': rr['exit'], 'stderr': rr['stderr'][-200:], 'lines': lines}
+    if rr['kind'] != 'exit' or rr['exit'] != 0:
+        v.append('CC-valid-history-rejected')
+    else:
+        img = rr['files'].get(f'{PDIR}/main.bin')
+        got = None if img is None else {i: ord(ch) for i, ch in enumerate(img) if ord(ch) != 0}
+        if got != expected:
+            v.append('CC-image-differs-from-model')
+            obs['expected'] = {hex(a): b for a, b in sorted(expected.items())}
+            obs['got'] = None if got is None else {hex(a): b for a, b in sorted(got.items())}
+    return {'violations': v, 'observed': obs}
+
+
 def check_case(case):
+    if case.get('xproc'):
+        return check_xproc(case)
     v, obs, model = run_history(case)
     return {'violations': v, 'observed': obs}
 
@@ -492,6 +524,8 @@ def make_machine(stats, box):
             cli = {k: v for k, v in cli.items() if k not in pre}
             self.case['pre_symbols'] = dict(pre)
             self.case['cli_symbols'] = dict(cli)
+            self.case['crlf'] = (len(pre) + len(cli)) % 3 == 2
+            self.case['cli_spacing'] = (len(pre) * 2 + len(cli)) % 3       # blanks around '=' / before the name in -D         # some histories are stored with CR LF line ends
             self.model = CondModel(dict(pre), dict(cli))
             stats['histories'] += 1
 
@@ -735,6 +769,8 @@ def make_machine(stats, box):
                     box['nontrivial'] += 1
                 for k, v in self.model.probes.items():
                     box['probes'][k] = box['probes'].get(k, 0) + v
+                if len(self.lines) >= 5 and any(x.startswith('#if') for x in self.lines) and len(box['xproc']) < 3:
+                    box['xproc'].append(copy.deepcopy(self.case))
                 if len(box['samples']) < 1 and len(self.lines) >= 6 and sum(1 for x in self.lines if x.startswith('#if')) >= 2:
                     box['samples'].append({'history_lines': list(self.lines),
                                            'pre_symbols': self.case['pre_symbols'],
@@ -747,7 +783,7 @@ def explore(subseed, cfg):
     from hypothesis import settings, HealthCheck, Phase
     from hypothesis.stateful import run_state_machine_as_test
     stats = {'runs': 0, 'evaluations': 0, 'steps': 0, 'histories': 0, 'harness': []}
-    box = {'paths': set(), 'probes': {}, 'samples': [], 'nontrivial': 0}
+    box = {'paths': set(), 'probes': {}, 'samples': [], 'nontrivial': 0, 'xproc': []}
     out = {'evaluations': 0, 'runs': 0, 'steps': 0, 'probes': {}, 'faults_fired': {}, 'discarded': {},
            'violations': [], 'samples': [], 'distinct': set(), 'harness': [], 'sim_clock_s': 0.0}
     Machine = make_machine(stats, box)
@@ -770,6 +806,21 @@ def explore(subseed, cfg):
                 out['violations'].append({'case': cause.case, 'class': c, 'group': 'history'})
         else:
             out['harness'].append(f'hypothesis: {type(e).__name__}: {str(e)[:200]}')
+    # cross-process tier: a few complete histories are assembled by real interpreters (real hash seed, python -O / -OO)
+    if not out['violations']:
+        for i, hc in enumerate(box['xproc']):
+            c = copy.deepcopy(hc)
+            c['xproc'] = {'pyopt': [1, 2, 0][i % 3], 'hashseed': (subseed + i) % 4001}
+            try:
+                res = check_case(c)
+            except Exception as e:
+                out['harness'].append(f'xproc: {type(e).__name__}: {e}')
+                continue
+            stats['runs'] += 1
+            stats['evaluations'] += 1
+            box['probes']['xproc_runs'] = box['probes'].get('xproc_runs', 0) + 1
+            for vv in res['violations']:
+                out['violations'].append({'case': c, 'class': vv, 'group': 'xproc'})
     out['evaluations'] = stats['evaluations']
     out['runs'] = stats['runs']
     out['steps'] = stats['steps']
